@@ -136,6 +136,35 @@ fn explore<T: SpecT>(ctx: &mut Ctx, rs: &RefSpec, depth: usize, reader_side: boo
                     variants.push((false, WOpt::Default, true));
                     variants.push((true, WOpt::Default, true));
                 }
+                // flush() closes every open master: afterwards the chain is empty, whatever it was
+                let flush_variants: Vec<bool> = if chain.is_empty() { vec![] } else { vec![false, true] };
+                for chain_unknown in flush_variants {
+                    let d = || format!("{} spec {{{}}} writer: open chain [{}]{} then flush() then {}", label, spec_short(rs), chain.iter().map(|i| rs.name(*i)).collect::<Vec<_>>().join("/"), if chain_unknown { " (unknown-size)" } else { "" }, rs.name(probe));
+                    if !ctx.enter(&d) {
+                        continue;
+                    }
+                    let mut w = TagWriter::new(Dest::default());
+                    let mut setup_ok = true;
+                    for m in chain {
+                        if apply_call::<T>(&mut w, &WCall::Tag(NItem::Start(*m), if chain_unknown { WOpt::Unknown } else { WOpt::Default })).is_err() {
+                            setup_ok = false;
+                            break;
+                        }
+                    }
+                    ctx.transitions += chain.len() as u64 + 2;
+                    if setup_ok && apply_call::<T>(&mut w, &WCall::Flush).is_ok() {
+                        ctx.count("writer_probe_after_flush", 1);
+                        let want0 = rs.allowed(probe, &[]);
+                        let r = apply_call::<T>(&mut w, &WCall::Tag(probe_item(rs, probe), WOpt::Default));
+                        match (&r, want0) {
+                            (Ok(()), true) | (Err(WErr::UnexpectedTag { .. }), false) => {}
+                            (Ok(()), false) => ctx.violation("writer/after-flush-accepts-a-tag-that-needs-an-open-master", &d, "flush() closes all open masters"),
+                            (Err(e), _) => ctx.violation("writer/after-flush-rejects-a-root-level-tag", &d, &format!("{:?}", e)),
+                        }
+                    }
+                    ctx.validated += 1;
+                    ctx.leave();
+                }
                 for (chain_unknown, popt, rejected_end_first) in variants {
                     let d = || format!("{} spec {{{}}} writer: open chain [{}]{}{} then {}{:?}", label, spec_short(rs), chain.iter().map(|i| rs.name(*i)).collect::<Vec<_>>().join("/"), if chain_unknown { " (unknown-size)" } else { "" }, if rejected_end_first { " then a REJECTED End of another master" } else { "" }, rs.name(probe), popt);
                     if !ctx.enter(&d) {
@@ -329,10 +358,10 @@ fn explore<T: SpecT>(ctx: &mut Ctx, rs: &RefSpec, depth: usize, reader_side: boo
 pub fn run(ctx: &mut Ctx) {
     let depth = ctx.tier.pick(5, 6);
     let max_placeholders = ctx.tier.pick(2, 3);
-    ctx.meta("rule", "cases: (specification, reference-reachable chain of open masters, probe tag, side/variant). Specifications: every forest of <= 4 masters (33 parent vectors) with a leaf under each, placeholder edges (min-max), min in {none,0,1,2}, max in {none,1,2,3}, on master edges (intermediate position for everything below), on a trailing leaf and on <= 2 global leaves, at most the stated number of placeholders per specification, ids of every byte length 1..8, served through a runtime table-driven EbmlSpecification; plus the macro-derived V and W (W has placeholders in trailing and intermediate position). For every chain reachable in the REFERENCE transition relation up to the depth bound, every tag of the specification is probed: writer (chain known-size / unknown-size; probe written plainly, for masters also started with unknown size via both calls, and plainly after a REJECTED End of a master that is not the innermost open one) and strict reader (byte stream = chain headers with none / all / each single / all-but-one unknown-size + probe; and the same streams with an element of an id outside the specification in front of the probe, unknown ids tolerated, which must change no decision; and, for all-known-size chains, with the innermost master holding just a 20-byte global Void and the probe right behind its end, read with a 16-byte initial capacity: the buffer grows while the chain is open, and the probe must be judged against the chain without that master). Oracle: accepted iff ref_path_match(path(tag), chain) (root elements iff empty chain); reader: judged against the chain remaining after the closings RefClose prescribes, with the Ends emitted first; rejections are UnexpectedTag / HierarchyError carrying the probe id. Non-trivial: probes whose path contains a placeholder under a non-empty chain.");
+    ctx.meta("rule", "cases: (specification, reference-reachable chain of open masters, probe tag, side/variant). Specifications: every forest of <= 4 masters (33 parent vectors) with a leaf under each, placeholder edges (min-max), min in {none,0,1,2}, max in {none,1,2,3}, on master edges (intermediate position for everything below), on a trailing leaf and on <= 2 global leaves, at most the stated number of placeholders per specification, ids of every byte length 1..8, served through a runtime table-driven EbmlSpecification; plus the macro-derived V and W (W has placeholders in trailing and intermediate position). For every chain reachable in the REFERENCE transition relation up to the depth bound, every tag of the specification is probed: writer (chain known-size / unknown-size; probe written plainly, for masters also started with unknown size via both calls, plainly after a REJECTED End of a master that is not the innermost open one, and after flush(), which closes every open master, judged against the empty chain) and strict reader (byte stream = chain headers with none / all / each single / all-but-one unknown-size + probe; and the same streams with an element of an id outside the specification in front of the probe, unknown ids tolerated, which must change no decision; and, for all-known-size chains, with the innermost master holding just a 20-byte global Void and the probe right behind its end, read with a 16-byte initial capacity: the buffer grows while the chain is open, and the probe must be judged against the chain without that master). Oracle: accepted iff ref_path_match(path(tag), chain) (root elements iff empty chain); reader: judged against the chain remaining after the closings RefClose prescribes, with the Ends emitted first; rejections are UnexpectedTag / HierarchyError carrying the probe id. Non-trivial: probes whose path contains a placeholder under a non-empty chain.");
     ctx.meta("bounds", &format!("chain depth <= {}, <= {} placeholders per specification", depth, max_placeholders));
     ctx.meta("assumptions", "reader-side probes use chains whose outermost master is non-global (before the first non-global element the position in the document is unknown by the statement) || specifications are consistent tables (what the derive macro emits; C18 checks the macro against such tables)");
-    for c in ["writer_probe_allowed", "writer_probe_forbidden", "reader_probe_allowed", "reader_probe_forbidden", "reader_probe_closing_unknown_size_masters", "reader_probe_behind_a_tolerated_unknown_id", "writer_probe_after_a_rejected_end", "reader_probe_after_the_buffer_grew", "specs"] {
+    for c in ["writer_probe_allowed", "writer_probe_forbidden", "reader_probe_allowed", "reader_probe_forbidden", "reader_probe_closing_unknown_size_masters", "reader_probe_behind_a_tolerated_unknown_id", "writer_probe_after_a_rejected_end", "reader_probe_after_the_buffer_grew", "writer_probe_after_flush", "specs"] {
         ctx.expect_nonzero(c);
     }
     // macro-derived specifications
